@@ -72,6 +72,7 @@ Qed.
 Lemma fr_poll_add : forall g p fd e k st, fr st (snd (poll_add_gen g p fd e k st)).
 Proof.
   intros. unfold poll_add_gen.
+  destruct (fx_pollreuse (fx st) && existsb (fd_is_live fd) (polls st)); [split; reflexivity|].
   pose proof (fr_poll_slot st). destruct (poll_slot st) as [i s1]. cbn in H.
   unfold fresh_uid.
   match goal with |- context [draw_check_p 200 0 ?s] => pose proof (fr_draw_check_p 200 0 s) as H2; destruct (draw_check_p 200 0 s) as [c s2] end.
